@@ -642,6 +642,8 @@ def check_block_seek(ctx):
 
 
 def check(ctx):
+    from . import tablefmt as _tf5
+    _tf5.check_capi_comparator(ctx)   # index keys are shortened only by a comparator that knows its own order
     from . import c08 as _c08
     _c08.check_readers(ctx)        # the iterator's sequence and its pinned state are captured in one critical section
     from . import tablefmt as _tf2
